@@ -294,7 +294,7 @@ func c02c(c *Ctx, v *variants.Variant) {
 		if len(names) == 3 {
 			bParam = names[1]
 		}
-		single := len(pfn.Body.List) == 1
+		single, _ := parseForwards(c, v)
 		passes := false
 		for _, ce := range callsIn(pfn.Body) {
 			if callName(ce) == "newParser" && len(ce.Args) == 3 && nospace(ce.Args[1]) == bParam {
